@@ -411,7 +411,14 @@ void hobby_interpolation(uint64_t count, Vec2* points, double* angles, bool* ang
         const uint64_t n = points_size - 1;
         double* theta = (double*)allocate(sizeof(double) * n);
         double* phi = (double*)allocate(sizeof(double) * n);
-        if (ang_c[0]) theta[0] = ang[0] - (pts[3] - pts[0]).angle();
+        // Angles are only meaningful modulo a full turn: reduce to (-pi, pi] as METAFONT does
+        auto reduce_angle = [](double a) -> double {
+            a = fmod(a, 2 * M_PI);
+            if (a > M_PI) a -= 2 * M_PI;
+            if (a <= -M_PI) a += 2 * M_PI;
+            return a;
+        };
+        if (ang_c[0]) theta[0] = reduce_angle(ang[0] - (pts[3] - pts[0]).angle());
 
         uint64_t i = 0;
         while (i < n) {
@@ -420,8 +427,8 @@ void hobby_interpolation(uint64_t count, Vec2* points, double* angles, bool* ang
             if (j == n + 1)
                 j--;
             else {
-                phi[j - 1] = (pts[3 * j] - pts[3 * (j - 1)]).angle() - ang[j];
-                if (j < n) theta[j] = ang[j] - (pts[3 * (j + 1)] - pts[3 * j]).angle();
+                phi[j - 1] = reduce_angle((pts[3 * j] - pts[3 * (j - 1)]).angle() - ang[j]);
+                if (j < n) theta[j] = reduce_angle(ang[j] - (pts[3 * (j + 1)] - pts[3 * j]).angle());
             }
 
             // Solve curve pts[i] thru pts[j]
